@@ -491,7 +491,8 @@ var hostileSyms = []string{"list", "vector", "bytes", "string", "sorted-map", "a
 	"x", "car", "lisp", "user", "json", "time", "c03t", "user:c03-type", "lisp:typedef", "quote", "unquote", "unquote-splicing", "quasiquote",
 	"lambda", "if", "defun", "all", "a b", "\xff", "(", "test", "any", "number", "bool", "fun", "map", "key", "s:string", "_"}
 
-var hostileStrs = []string{"", "x", "abc", "a b", "{}", "{", "}{", "{}{}{}", "{{}}", "%s%d", "\xff\xfe", "a\x00b", "é", " ", "\xed\xa0\x80",
+var hostileStrs = []string{"", "x", "abc", "a b", "{}", "{", "}{", "{}{}{}", "{{}}", "%s%d",
+	"{0}", "{1} {0}", "{9223372036854775807}", "{9223372036854775808}", "{18446744073709551616}", "{-1}", "{00000000000000000001}", "{1e3}", "{ 1 }", "{4294967296}", "{0} {}", "\xff\xfe", "a\x00b", "é", " ", "\xed\xa0\x80",
 	`{"a":[1,2,{"b":null}]}`, `[1,2`, `"str"`, `1e400`, `123456789012345678901234567890`, `-0`, `{"a":1,"a":2}`, "null", "tru",
 	"(+ 1 2)", "(", ")", "(error 'x)", "(defun f () (f)) (f)", "'", "#^(%99999999)", "(load-string \"(\")",
 	"a+(b*)", "(((", "[", "a{1000}{1000}", "(?P<n>x)", "\\", "(a*)*b", "[[:alpha:]]", "(?i)x",
